@@ -1,4 +1,4 @@
-from typing import Dict
+from typing import Optional, Dict
 from typing import List
 from typing import Union
 
@@ -67,11 +67,21 @@ class Library:
             blocks = [blocks]
 
         for block in blocks:
-            self._blocks.remove(block)
+            del self._blocks[self._index_of(block)]
             if isinstance(block, Entry):
                 del self._entries_by_key[block.key]
             elif isinstance(block, String):
                 del self._strings_by_key[block.key]
+
+    def _index_of(self, block: Block, blocks: Optional[List[Block]] = None) -> int:
+        """Position of the block itself, else of the first block equal to it.
+
+        :raises ValueError: If block is not in library."""
+        blocks = self._blocks if blocks is None else blocks
+        for index, held_block in enumerate(blocks):
+            if held_block is block:
+                return index
+        return blocks.index(block)
 
     def replace(self, old_block: Block, new_block: Block, fail_on_duplicate_key: bool = True):
         """Replace a block with another block, at the same position.
@@ -83,7 +93,7 @@ class Library:
         :raises ValueError: If old_block is not in library or if fail_on_duplicate_key is True
                 and a block with new_block.key (other than old_block) already exists."""
         try:
-            index = self._blocks.index(old_block)
+            index = self._index_of(old_block)
             self.remove(old_block)
         except ValueError:
             raise ValueError("Block to replace is not in library.")
